@@ -678,7 +678,7 @@ func (fr *Frame) applyContract(i *ssa.Call, callee *ssa.Function, c *Contract, a
 		if useOnly != nil && cl.Label != "" && !useOnly[cl.Label] {
 			continue // the caller declared which labelled postconditions it relies on
 		}
-		if !check && x.contractDepth[callee] >= 1 {
+		if !check && x.contractDepth[callee] >= 2 {
 			// a postcondition that mentions the function itself (through a spec function) is
 			// unfolded once; deeper applications are just the function symbols
 			continue
